@@ -1,5 +1,6 @@
 import Pi2.Sexp
 import Pi2.PrettyTie
+import Pi2.MM.AstEmbed
 /-!
 # `pi2gen` — a second driver, for requests that evaluate GENERATED code (`Pi2/Gen/*`, regenerated from /repo on every run)
 
@@ -66,6 +67,11 @@ def handle (line : String) : String :=
       match tab?, ppOfSexp p with
       | some tab, some p => prettyGen mode tab p
       | _, _ => "bad-request"
+    | "mmtext", [db] =>
+      -- the translated Encoder (Pi2/Gen/MMAst.lean) through the Printer model (Pi2/MMAstSupport.lean): the TEXT, as a hex atom
+      match mdbOfSexp db with
+      | some db => (match AstTie.textOf db with | some t => hexAtomOfStr t | none => "(raise)")
+      | none => "bad-request"
     | _, _ => "bad-request"
   | _ => "bad-request"
 
